@@ -15,7 +15,7 @@ URIS = ["file:///c20/a.spl", "file:///c20/b.spl", "untitled:///c20/a.spl", "file
 
 class Driver:
     def __init__(s, binpath, env, caps):
-        e = dict(os.environ); e.update(env)
+        e = dict(os.environ); e.update(env); e.setdefault("TSAN_OPTIONS", "halt_on_error=0 exitcode=66 second_deadlock_stack=1")
         s.p = subprocess.Popen([binpath], stdin=subprocess.PIPE, stdout=subprocess.PIPE, stderr=subprocess.PIPE, env=e, bufsize=0)
         s.fin, s.fout = s.p.stdin.fileno(), s.p.stdout.fileno()
         os.set_blocking(s.fin, False)
@@ -176,6 +176,16 @@ def run_history(part, binpath, rng, nops, sc_seed):
         t0 = time.monotonic()
         while d.out and time.monotonic() - t0 < 5: d.pump(True, 0.01)
         part.ev(len(ops))
+        # orderly end: status 0 after shutdown + exit; a sanitizer build reports data races here (exit 66)
+        try:
+            d.p.stdin.close(); rc = d.p.wait(20)
+        except Exception:
+            rc = None
+        err = d.p.stderr.read().decode(errors="replace")
+        if "ThreadSanitizer" in err or "AddressSanitizer" in err or rc == 66:
+            part.fail("%s: sanitizer report: %s" % (what, err[err.find("WARNING"):][:600]), sc); return
+        if rc != 0:
+            part.fail("%s: exit status %r after shutdown + exit (stderr: %s)" % (what, rc, err[-200:]), sc); return
         # ---- offline checks over the recorded history
         resp = [m for m in d.msgs if "id" in m and "method" not in m]
         ids = [m["id"] for m in resp]
@@ -243,6 +253,11 @@ def run(ctx):
     server_bin("rel")
     nh, nops = (6, 250) if ctx.quick else (150, 500)
     for p in pmap(worker, [("%s/%d" % (ctx.seed, i), nh, nops, "rel") for i in range(NCPU)]): ctx.merge(p)
+    if not ctx.quick:
+        server_bin("tsan"); before = ctx.extra.get("counters", {}).get("histories", 0)
+        for p in pmap(worker, [("%s/tsan/%d" % (ctx.seed, i), 12, nops, "tsan") for i in range(NCPU)]): ctx.merge(p)
+        ctx.extra["sanitizer"] = {"build": "ThreadSanitizer (nightly -Zsanitizer=thread -Zbuild-std)", "histories": ctx.extra.get("counters", {}).get("histories", 0) - before,
+                                  "reports": "a report (exit 66 / WARNING: ThreadSanitizer on stderr) is a violation; none seen unless listed under violations"}
     mi = ctx.extra.get("_sets", {}).get("max_inflight_requests", set())
     ctx.extra["max_in_flight_reads_seen"] = max(mi) if mi else 0
     ctx.extra.get("_sets", {}).pop("max_inflight_requests", None)
